@@ -830,6 +830,10 @@ class Interp:
         raise Inconclusive("float binop " + op)
 
     def fp_div(self, a, b):
+        if getattr(self, "use_uf_div", False):
+            # scenario-scoped: division as an uninterpreted function (its value properties are C13's subject)
+            f = z3.Function("uf_fdiv", a.sort(), b.sort(), a.sort())
+            return f(a, b)
         return z3.fpDiv(z3.RNE(), a, b)
 
     def cast(self, v, ty, kind, src_ty):
